@@ -47,6 +47,7 @@ Check(ev) ==
     [] ev.ev = "hstart" /\ InTags(ev.c) /\ connOf[ev.c] # 0 /\ connOf[ev.c] # ev.conn -> "C09_ConnectionIDStable"
     [] ev.ev = "hstart" /\ InTags(ev.c) /\ (\E d \in Tags : d # ev.c /\ connOf[d] = ev.conn) -> "C09_ConnectionIDUnique"
     [] ev.ev = "hunbind" /\ InTags(ev.c) /\ connOf[ev.c] # 0 /\ connOf[ev.c] # ev.conn -> "C09_ConnectionIDStable"
+    [] ev.ev = "connid_changed" -> "C09_ConnectionIDStable"       \* a request kept by the application reports another ID later on
     [] ev.ev = "hend" /\ InTags(ev.c) /\ connOf[ev.c] # 0 /\ connOf[ev.c] # ev.conn -> "C09_ConnectionIDStable"     \* asked again when the handler returns
     [] ev.ev = "eof" /\ ev.held # <<>> -> "C08_SocketClosedOnlyAfterHandlersReturned"
     [] ev.ev = "hstart" /\ InTags(ev.c) /\ eofSeen[ev.c] -> "C08_SocketClosedOnlyAfterHandlersReturned"     \* a handler starts on a connection the server already closed
@@ -75,7 +76,8 @@ Check(ev) ==
     [] OTHER -> ""
 
 NextT ==
-  /\ l < Len(T) /\ e.ev # "reset" /\ (l = 0 \/ T[l].ev \notin {"end", "leak", "proc_exit"}) /\ l' = l + 1
+  \* (a "leak" / "proc_exit" line is a trace of its own: it is consumed from the line in front of it, whatever that line is)
+  /\ l < Len(T) /\ e.ev # "reset" /\ (l = 0 \/ T[l].ev \notin {"end", "leak", "proc_exit"} \/ e.ev \in {"leak", "proc_exit"}) /\ l' = l + 1
   /\ bad' = Check(e)
   /\ exp' = IF e.ev = "expect" THEN BagAdd(exp, KeyX(e)) ELSE exp
   /\ obs' = IF e.ev \in Observable THEN BagAdd(obs, Key(e)) ELSE obs
